@@ -17,7 +17,7 @@ from harness.cf import LABEL_MAPS, first_argmax, rows_of
 from harness.snap import snapshot, diff, same
 
 LPS = ["eg", "ucb1", "softmax", "pop", "ts", "random", "lin-ucb", "lin-ts", "lin-greedy"]
-NPS = [None, "radius", "knearest", "lsh", "clusters", "tree"]
+NPS = [None, "radius", "knearest", "lsh", "clusters", "tree", "clusters-mb"]
 
 
 def valid(lp, np_):
@@ -71,7 +71,7 @@ class GenBinding:
         self.strict_snapshots = False       # internal template policies may differ unobservably: decide by outputs
         self.probe_steps = [("predict_expectations", 5), ("predict", 5), ("cold_arms",), ("partial_fit", [7, 8]),
                             ("predict_expectations", 3)]
-        self.min_fit = {"clusters": 2, "knearest": 2}.get(np_, 1)
+        self.min_fit = {"clusters": 2, "clusters-mb": 2, "knearest": 2}.get(np_, 1)
 
     def describe(self):
         return {"lp": self.lp, "np": self.np, "labels": self.lmname, "seed": self.seed, "n_jobs": self.n_jobs,
@@ -102,7 +102,8 @@ class GenBinding:
               "ts": LP.ThompsonSampling(binarizers.BY_NAME[self.bin_name]), "random": LP.Random(),
               "lin-ucb": LP.LinUCB(1.25, 0.5), "lin-ts": LP.LinTS(0.5, 2.0), "lin-greedy": LP.LinGreedy(self.epsilon, 1.0)}[self.lp]
         np_ = {None: None, "radius": NP.Radius(2.0, "cityblock"), "knearest": NP.KNearest(2, "chebyshev"),
-               "lsh": NP.LSHNearest(2, 2), "clusters": NP.Clusters(2), "tree": NP.TreeBandit()}[self.np]
+               "lsh": NP.LSHNearest(2, 2), "clusters": NP.Clusters(2), "tree": NP.TreeBandit(),
+               "clusters-mb": NP.Clusters(2, True)}[self.np]
         return lp, np_
 
     def new(self, arms, bin_name="none"):
@@ -114,8 +115,18 @@ class GenBinding:
         return mab
 
     # ---- arguments ----------------------------------------------------------
+    WIDE = 100
+
+    def row(self, i):
+        if i > self.WIDE:
+            a, r, x = self.data[(i - self.WIDE - 1) % len(self.data)]
+            return a, r, tuple(x) + (float((i * 7) % 3),)           # the same observations with one more feature column
+        return self.data[i - 1]
+
     def batch(self, ids, mab=None):
-        rows = [self.data[i - 1] for i in ids]
+        rows = [self.row(i) for i in ids]
+        if mab is not None and self.contextual:
+            mab._verif_width = len(rows[0][2])
         conv = getattr(mab, "_verif_bin", None) or self.preconv
         if conv:
             fn = binarizers.BY_NAME[conv]
@@ -134,8 +145,16 @@ class GenBinding:
             import pandas as pd
             d, r, c = pd.Series(d), pd.Series(r), pd.DataFrame(c)
         elif kind == "series1" and self.dims == 1:
+            # a Series is a column of single-feature rows, or (with one decision) one row of several features (Orient.tla)
             import pandas as pd
-            d, r, c = np.asarray(d), np.asarray(r), pd.Series([row[0] for row in c])
+            width = len(c[0])
+            if width == 1:
+                ctx = pd.Series([row[0] for row in c])
+            elif len(c) == 1:
+                ctx = pd.Series(c[0])
+            else:
+                ctx = np.asarray(c)
+            d, r, c = np.asarray(d), np.asarray(r), ctx
         elif kind == "fortran":
             d, r, c = np.asarray(d), np.asarray(r), np.asfortranarray(np.asarray(c))
         elif kind == "view":
@@ -153,8 +172,8 @@ class GenBinding:
             d, r, c = np.asarray(d), np.asarray(r), np.asarray(c)
         return (d, r, c) if self.contextual else (d, r)
 
-    def query_args(self, m):
-        ctx = self.contexts(m)
+    def query_args(self, m, mab=None):
+        ctx = self.contexts(m, mab)
         if ctx is None:
             return None
         kind = self.container
@@ -163,7 +182,11 @@ class GenBinding:
             return pd.DataFrame(ctx)
         if kind == "series1" and self.dims == 1:
             import pandas as pd
-            return pd.Series([row[0] for row in ctx])
+            if len(ctx[0]) == 1:
+                return pd.Series([row[0] for row in ctx])
+            if len(ctx) == 1:
+                return pd.Series(ctx[0])
+            return np.asarray(ctx)
         if kind == "fortran":
             return np.asfortranarray(np.asarray(ctx))
         if kind == "view":
@@ -219,10 +242,12 @@ class GenBinding:
                     return False
         return True
 
-    def contexts(self, m):
+    def contexts(self, m, mab=None):
         if m == 0 and not self.contextual:
             return None
-        return [[float(v) for v in self.queries[i % len(self.queries)]] for i in range(max(m, 1))]
+        width = getattr(mab, "_verif_width", self.dims) if self.contextual else self.dims
+        rows = [[float(v) for v in self.queries[i % len(self.queries)]] for i in range(max(m, 1))]
+        return [row + [1.0] * (width - len(row)) for row in rows]
 
     # ---- calls -----------------------------------------------------------------
     def call(self, mab, label, feat=None):
@@ -244,7 +269,7 @@ class GenBinding:
                 self.remember((feats,))
                 return "ok", mab.warm_start(feats, float(q))
             if op in ("predict", "predict_expectations"):
-                return "ok", getattr(mab, op)(*self.remember((self.query_args(label["m"]),)))
+                return "ok", getattr(mab, op)(*self.remember((self.query_args(label["m"], mab),)))
             if op == "reject":
                 return self.reject(mab, label["kind"])
         except Exception as error:  # noqa
@@ -334,7 +359,7 @@ class GenBinding:
         if self.contextual:
             kinds |= {"fit_missing_contexts", "pfit_missing_contexts", "pfit_wrong_columns", "pfit_row_length", "ctx_1d",
                       "ctx_3d", "predict_missing_contexts"}
-        if self.np == "clusters":
+        if self.np in ("clusters", "clusters-mb"):
             kinds.add("clusters_too_few_rows")
         return kinds
 
@@ -368,10 +393,10 @@ class GenBinding:
             if name.startswith("arm_to_") and isinstance(value, dict) and list(value.keys()) != list(mab.arms):
                 out.append(("state.keys", "%s has keys %s, arms are %s" % (name, list(value.keys()), list(mab.arms))))
         # the stored history of neighbourhood policies is exactly the rows presented since the last fit
-        if state["fitted"] and self.np in ("radius", "knearest", "lsh", "clusters") and getattr(imp, "decisions", None) is not None:
+        if state["fitted"] and self.np in ("radius", "knearest", "lsh", "clusters", "clusters-mb") and getattr(imp, "decisions", None) is not None:
             ids = state["rows"]
-            want_d = [self.lm[self.data[i - 1][0]] for i in ids]
-            want_c = [[float(v) for v in self.data[i - 1][2]] for i in ids]
+            want_d = [self.lm[self.row(i)[0]] for i in ids]
+            want_c = [[float(v) for v in self.row(i)[2]] for i in ids]
             got_d = [a.item() if hasattr(a, "item") else a for a in list(imp.decisions)]
             if got_d != want_d or not (len(imp.rewards) == len(imp.contexts) == len(ids)) \
                     or np.asarray(imp.contexts, dtype=float).tolist() != want_c:
@@ -403,7 +428,7 @@ class GenBinding:
                         return
             tree_eps = self.np == "tree" and self.lp == "eg" and self.epsilon > 0
             if "argmax" in rep.checks and not tree_eps:
-                exps = twin.predict_expectations(self.contexts(m))
+                exps = twin.predict_expectations(self.contexts(m, twin))
                 erows, _ = rows_of(exps, m)
                 want = [None if all(v != v for v in row.values()) else first_argmax(arms, row) for row in erows]
                 got = [a.item() if hasattr(a, "item") else a for a in rows]
